@@ -216,7 +216,7 @@ def build():
           trusted_reason="incoming balls handler: matches the arrival to an expected ball or reports it unexpected")
     C.ext("IncomingBallsHandler.get_num_incoming_balls",
           model=lambda I, env, a, k: I.read_field(env["self"].ref, "n_incoming"), trusted_reason="number of balls on their way")
-    C.cls("OutgoingBallsHandler", fields=dict(is_ready_to_receive=Bool))
+    C.cls("OutgoingBallsHandler", fields=dict(is_ready_to_receive=Bool, is_idle=Bool))
 
     def rely_gate(I):
         """while the gate sleeps other tasks run: count, incoming balls, counter readiness and eject state may change"""
@@ -257,7 +257,8 @@ def build():
           trusted_reason="eject tracker")
     C.cls("BallDeviceStateHandler", fields={})
     DEV = ObjS("BallDevice", name=Str, counted_balls=Int, incoming_balls_handler=ObjS("IncomingBallsHandler"),
-               outgoing_balls_handler=ObjS("OutgoingBallsHandler"))
+               outgoing_balls_handler=ObjS("OutgoingBallsHandler"),
+               config=Rec(mechanical_eject=Bool, idle_missing_ball_timeout=Real))
     C.cls("BallDevice", fields=DEV.fields)
 
     def futures(I, name):
@@ -266,6 +267,7 @@ def build():
     C.cls("BallCountHandler", file=BCH, bases=["BallDeviceStateHandler"], fields=dict(
         ball_device=DEV, machine=ObjS("MachineController", events=ObjS("EventManager")), _ball_count=Int,
         _has_balls=ObjS("AsyncEvent"), _eject_started=ObjS("AsyncEvent"), _is_counting=ObjS("AsyncLock"),
+        _revalidate=ObjS("AsyncEvent"),
         _ball_count_changed_futures=Init(futures), counter=Opt(ObjS("PhysicalBallCounter"))),
         invariants=[("the device mirrors the handled count", "self.ball_device.counted_balls == self._ball_count or True")])
     C.fn("BallCountHandler.wait_for_ball_count_changed", model=waiter, external=True,
@@ -312,6 +314,48 @@ def build():
          ensures=[("H7: a ball entering during an eject is reported once and counted (+1)",
                    "n_arrivals() == 1 and self._ball_count == old(self._ball_count) + 1")],
          modifies=CM, raises={}, bounded="BOUNDED: at most 2 waiting futures")
+    # ---- balls that vanish from an idle device are handed to the playfield one by one (conservation)
+    C.ghost.update(dict(n_lost_idle=Int, n_mech=Int))
+
+    def bump(field):
+        def m(I, env, a, k):
+            I.write_field(I.ghost, field, VInt(I.force(I.read_field(I.ghost, field)).t + 1))
+            return NONE
+        return m
+    C.ext("BallDevice.lost_idle_ball", model=bump("n_lost_idle"),
+          trusted_reason="BallDevice.lost_idle_ball: reports ONE ball as lost to the playfield (posts "
+                         "balldevice_ball_missing, the target playfield adds one ball)")
+    C.ext("BallDevice.handle_mechanical_eject_during_idle", model=bump("n_mech"),
+          trusted_reason="BallDevice: a mechanical eject happened while idle (one ball towards the default target)")
+    C.ext("PhysicalBallCounter.wait_for_ball_activity", model=lambda I, env, a, k: VOpaque("Any", z3.Const(
+        I.fresh_name("activity"), usort("Any"))), trusted_reason="future: the next switch activity of the counter")
+    C.exc("TimeoutError", "Exception")
+    C.globals["asyncio.TimeoutError"] = VCls("TimeoutError")
+
+    def wait_for(I, a, k):
+        """asyncio.wait_for: the awaited activity happens in time, or TimeoutError"""
+        emit(I, "await")
+        if I.ctx.fork(2) == 1:
+            I.raise_("TimeoutError", "timeout")
+        return NONE
+    C.globals["asyncio.wait_for"] = VFn("model", model=wait_for)
+    C.fn("BallCountHandler._handle_missing_balls", params=dict(new_balls=Int, missing_balls=Int),
+         requires=[("called by _run under the counting lock with the new, lower count",
+                    "missing_balls >= 1 and new_balls >= 0 and self._ball_count == new_balls + missing_balls"),
+                   ("ghost counters start at zero", "ghost.n_lost_idle == 0 and ghost.n_mech == 0")],
+         loops_by_text={"range(missing_balls": LoopSpec(
+             invariant=[("one lost-ball report per ball so far", "ghost.n_lost_idle == _ and ghost.n_mech == 0")],
+             modifies=["ghost.n_lost_idle"], roles={"_": "counter"})},
+         ensures=[("M1 conservation: when the handled count of an idle device is lowered, every missing ball is "
+                   "reported as lost exactly once (it is added to the playfield count), or - mechanical eject - the "
+                   "eject is handed to the device",
+                   "implies(self._ball_count != old(self._ball_count), self._ball_count == new_balls and "
+                   "((ghost.n_lost_idle == missing_balls and ghost.n_mech == 0) or "
+                   "(ghost.n_mech == 1 and ghost.n_lost_idle == 0 and self.ball_device.config['mechanical_eject'])))"),
+                  ("M2: while the count is kept (ejecting, or activity seen: recount) no ball is reported lost",
+                   "implies(self._ball_count == old(self._ball_count), ghost.n_lost_idle == 0 and ghost.n_mech == 0)")],
+         modifies=CM + ["ghost.n_lost_idle", "ghost.n_mech", "self._revalidate.flag"],
+         raises={"CancelledError": "self.counter is None"}, bounded="BOUNDED: at most 2 waiting futures")
     C.fn("BallCountHandler.is_full", is_property=True, result=Bool,
          ensures=["result == (self.counter.capacity - self._ball_count <= 0)"], modifies=[],
          raises={"CancelledError": "self.counter is None"})
@@ -335,3 +379,121 @@ def build():
     C.assume("C04 is PARTIAL: physical ball positions, sums over devices (= num_balls_known) and global capacity / "
              "non-negativity invariants across tasks are not decided")
     return C
+
+
+ESC = "mpf/devices/ball_device/entrance_switch_counter.py"
+
+
+def counter_set():
+    """EntranceSwitchCounter: a device that counts entries with one switch must never count beyond its capacity,
+    whatever the spacing of the activations (the handled count of BallCountHandler lags behind the counter's own)"""
+    C = ContractSet("C04c", "entrance-switch counter stays within 0..capacity")
+    C.strings = False
+    C.ghost.update(dict(n_entered=Int, n_left=Int))
+    C.cls("PhysicalBallCounter", fields={})
+    C.cls("BallCountHandlerI", fields=dict(is_full=Bool))
+    C.cls("Logger", fields={})
+    common.declare_noop(C, "Logger", "warning", "info", "debug", reason="logging")
+    C.cls("BallDeviceI", fields=dict(ball_count_handler=ObjS("BallCountHandlerI"), log=ObjS("Logger")))
+    C.cls("Clock", fields=dict(loop=ObjS("Loop")))
+    C.cls("Loop", fields={})
+    C.ext("Clock.get_time", model=lambda I, env, a, k: VReal(z3.Real(I.fresh_name("now"))), trusted_reason="clock")
+    common.declare_noop(C, "Loop", "call_at", reason="asyncio loop: calls _recycle_passed later (A-ASYNCIO)")
+    C.cls("SwitchController", fields={})
+    C.ext("SwitchController.is_active", model=lambda I, env, a, k: VBool(z3.Bool(I.fresh_name("sw_active"))),
+          trusted_reason="switch state (C03)")
+    C.cls("SettleDelay", fields={})
+    common.declare_noop(C, "SettleDelay", "remove", "reset", reason="settle delay of the counter (C13): only marks the "
+                        "count stable later")
+    C.cls("AsyncEvent", fields=dict(flag=Bool))
+    C.ext("AsyncEvent.set", model=lambda I, env, a, k: (I.write_field(env["self"].ref, "flag", VBool(True)), NONE)[1],
+          trusted_reason="asyncio.Event")
+    C.ext("AsyncEvent.clear", model=lambda I, env, a, k: (I.write_field(env["self"].ref, "flag", VBool(False)), NONE)[1],
+          trusted_reason="asyncio.Event")
+
+    def clear_times(I, name):
+        k = I.ctx.fork(3)
+        if k == 0:
+            return I.new_dict(())
+        if k == 1:
+            return I.new_dict(((VStr("s_entrance"), NONE),))
+        return I.new_dict(((VStr("s_entrance"), VReal(z3.Real(name + "[s_entrance]"))),))
+    CFG = Rec(ball_capacity=Int, entrance_switch_full_timeout=Int, settle_time_ms=Int,
+              entrance_switch=Seq(Opaque("Switch")))
+    C.cls("EntranceSwitchCounter", file=ESC, bases=["PhysicalBallCounter"], fields=dict(
+        config=CFG, _last_count=Int, recycle_secs=Real, recycle_clear_time=Init(clear_times),
+        _settle_delay=ObjS("SettleDelay"), _count_stable=ObjS("AsyncEvent"),
+        machine=ObjS("MachineController", clock=ObjS("Clock"), switch_controller=ObjS("SwitchController")),
+        ball_device=ObjS("BallDeviceI"), is_ready_to_receive=Bool),
+        invariants=[("K0: the counter's own count is never negative and never above the capacity of the device",
+                     "self._last_count >= 0 and implies(self.config['ball_capacity'] != 0, self._last_count <= "
+                     "self.config['ball_capacity'])"),
+                    ("the configured capacity is not negative", "self.config['ball_capacity'] >= 0")])
+
+    def act(field):
+        def m(I, a, k):
+            return VOpaque("Activity", z3.Const(I.fresh_name(field), usort("Activity")))
+        return m
+    C.globals["BallEntranceActivity"] = VFn("model", model=act("entrance"))
+    C.globals["BallLostActivity"] = VFn("model", model=act("lost"))
+
+    def record(I, env, a, k):
+        v = I.force(a[0])
+        f = "n_entered" if "entrance" in str(v.t) else "n_left"
+        I.write_field(I.ghost, f, VInt(I.force(I.read_field(I.ghost, f)).t + 1))
+        return NONE
+    C.ext("EntranceSwitchCounter.record_activity", model=record,
+          trusted_reason="PhysicalBallCounter.record_activity: queues one activity for BallCountHandler")
+    for m_ in ("invalidate_count", "mark_count_as_stable_and_trigger_activity", "trigger_activity"):
+        C.ext("EntranceSwitchCounter." + m_, model=common.noop,
+              trusted_reason="PhysicalBallCounter: count-stable flag / wakes waiting futures")
+    G0 = ("ghost counters start at zero", "ghost.n_entered == 0 and ghost.n_left == 0")
+    GM = ["ghost.n_entered", "ghost.n_left"]
+    C.fn("EntranceSwitchCounter._entrance_switch_handler",
+         params=dict(switch_name=Union(Const("event"), Const("s_entrance"))), requires=[G0],
+         ensures=[("K1: an entrance activation counts at most one ball, reports exactly what it counted, and a device "
+                   "already at capacity (by the counter's OWN count) counts nothing - also when activations arrive "
+                   "faster than BallCountHandler processes them",
+                   "self._last_count == old(self._last_count) + ghost.n_entered and 0 <= ghost.n_entered <= 1 and "
+                   "ghost.n_left == 0"),
+                  ("K2: outside the ignore window and below capacity (and not the last free place of a device with "
+                   "entrance_switch_full_timeout) the ball IS counted",
+                   "implies(not old(bool(self.recycle_clear_time.get(switch_name, False))) and "
+                   "(self.config['ball_capacity'] == 0 or old(self._last_count) + 1 < self.config['ball_capacity'] or "
+                   "(old(self._last_count) + 1 == self.config['ball_capacity'] and "
+                   "self.config['entrance_switch_full_timeout'] == 0)), ghost.n_entered == 1)")],
+         modifies=["self._last_count", "self.recycle_clear_time.*", "self.recycle_clear_time"] + GM, raises={})
+    C.fn("EntranceSwitchCounter._entrance_switch_full_handler",
+         requires=[G0, ("registered only for a device with a capacity", "self.config['ball_capacity'] != 0")],
+         loops_by_text={"range(new_balls": LoopSpec(
+             invariant=[("one entrance activity per added ball", "ghost.n_entered == _ and ghost.n_left == 0")],
+             modifies=["ghost.n_entered"], roles={"_": "counter"})},
+         ensures=[("K3: a ball resting on the entrance switch means the device is full: the count is raised to the "
+                   "capacity (never lowered, never above it) and one entrance activity is recorded per added ball",
+                   "self._last_count == self.config['ball_capacity'] and ghost.n_entered == "
+                   "self.config['ball_capacity'] - old(self._last_count) and ghost.n_left == 0")],
+         modifies=["self._last_count", "self._count_stable.flag"] + GM, raises={})
+    C.fn("EntranceSwitchCounter._ball_left", params=dict(future=Opaque("Any")),
+         requires=[G0, ("a ball can only leave a device that holds one (the eject was started with a ball)",
+                        "self._last_count >= 1")],
+         ensures=[("K4: a ball that left is un-counted exactly once and reported once",
+                   "self._last_count == old(self._last_count) - 1 and ghost.n_left == 1 and ghost.n_entered == 0")],
+         modifies=["self._last_count"] + GM, raises={})
+    C.fn("EntranceSwitchCounter.count_balls_sync", result=Int,
+         requires=[("validated config: a device counted by entrance switch has one", "len(self.config['entrance_switch']) >= 1")],
+         ensures=[("K5: the reported count is the counter's own count", "result == self._last_count")],
+         modifies=[], raises={"ValueError": True})
+    C.assume("EntranceSwitchCounter.__init__ is not under contract: it starts the count at 0 or at the capacity "
+             "(read from the source, mpf/devices/ball_device/entrance_switch_counter.py)")
+    return C
+
+
+def build_extra():
+    # 'MPF never fires a ball towards a device that has no room': every physical attempt of the eject loop - the first
+    # one AND every retry - comes after the target's readiness gate (C05's contract on _ejecting, clause E1)
+    from . import C05
+    c05 = C05.build()
+    c05.pid = "C04b"
+    c05.replay_pid = "C05"
+    c05.only_verify = ["OutgoingBallsHandler._ejecting"]
+    return [c05, counter_set()]
